@@ -22,7 +22,7 @@ impl Monitor for C08 {
         "C08"
     }
     fn rule(&self) -> String {
-        "cases = seeded universes with conflicts below the direct requirements (constrains-heavy and layered families), root requirements restricted to single version sets, random activity parameters (so that the VSIDS-like ordering is stressed), sync + async; applicable when a brute-force search finds a valid solution containing the first-ranked candidate of every root requirement simultaneously; then the returned solution must contain all of them. distinct = content hash; non-trivial = distinct applicable case whose search had >= 1 conflict".into()
+        "cases = seeded universes with conflicts below the direct requirements (constrains-heavy and layered families; a twelfth from the `conflict-chain` family whose solves go through up to ~100 learnt conflicts before the decisive one), root requirements restricted to single version sets, random activity parameters (so that the VSIDS-like ordering is stressed), sync + async; applicable when a brute-force search finds a valid solution containing the first-ranked candidate of every root requirement simultaneously; then the returned solution must contain all of them. distinct = content hash; non-trivial = distinct applicable case whose search had >= 1 conflict".into()
     }
     fn cases(&self, tier: Tier) -> u64 {
         tier.pick(320_000, 6_400_000)
@@ -33,7 +33,7 @@ impl Monitor for C08 {
     fn generate(&self, r: &mut Rng, _tier: Tier, _i: u64) -> SolverCase {
         let (name, mut cfg) = pick_family(r, FAMILIES);
         cfg.maxroot = 3;
-        let (u, mut p) = gener::generate(r, &cfg);
+        let (name, (u, mut p)) = if r.chance(1, 12) { ("conflict-chain", gener::conflict_chain(r)) } else { (name, gener::generate(r, &cfg)) };
         p = p.hard();
         // most cases: only single version set root requirements; a sixth of the cases keeps root
         // unions next to them; those are outside the quantifier and only counted
@@ -56,6 +56,7 @@ impl Monitor for C08 {
         let rf = Ref::new(&u);
         let h = u.content_hash(&c.p);
         ctx.rep.distinct.insert(h);
+        ctx.rep.count(&format!("family:{}", c.family));
         let singles: Vec<Req> = c.p.reqs.iter().copied().filter(|r| matches!(r, Req::Single(_))).collect();
         if singles.is_empty() {
             return;
@@ -95,6 +96,10 @@ impl Monitor for C08 {
                         ctx.violation("direct-requirement-downgraded", format!("run {k} ({:?}, activity {:?}): best candidates {:?} missing from {:?}", opts.mode, opts.activity, missing, sol.iter().map(|&s| u.solv_label(s)).collect::<Vec<_>>()));
                     }
                     let hs = hook_stats(&sess);
+                    ctx.rep.max("max-conflicts-in-one-solve", hs.conflicts as u64);
+                    if hs.conflicts >= 30 {
+                        ctx.rep.count("applicable-with->=30-conflicts");
+                    }
                     if hs.conflicts >= 1 {
                         ctx.rep.nontrivial.insert(h);
                         ctx.rep.count("applicable-with-conflict");
